@@ -49,4 +49,8 @@ structure EnvWF (E : Env) : Prop where
   space_not_starter : ∀ r, E.isSpace r = true → E.starter r = false
   nl_space : E.isSpace nl = true
 
+/-- the words a line leaves in the line buffer when scanned from a clean state -/
+def lineBufOf (E : Env) (t : State) : List Word :=
+  t.linebuf ++ (if t.obuf ≠ [] then [flushWord E t.obuf] else [])
+
 end LC.V2Tok
